@@ -634,7 +634,7 @@ pub fn run(rc: &RunCtx) -> Outcome {
                 continue;
             }
             disagreements_checked += 1;
-            let iso = check_isolated(rc, &items[i].1, None, mp);
+            let iso = check_isolated_contexts(rc, &items[i].1, None, mp, &|m: &[String]| m.is_empty() != want_accept);
             if iso.is_empty() == want_accept {
                 continue;
             }
